@@ -578,6 +578,11 @@ class ReactiveServer:
             self.buf = rest[n:]
             sh = self.shared
             k = len(sh['requests'])
+            # answer by what was asked for (a request that never reached the server must not shift
+            # the script): the path names the exchange when the script has a path map
+            path = head.split(b' ')[1].decode('latin-1') if head.count(b' ') >= 2 else None
+            if path in sh.get('paths', {}):
+                k = sh['paths'][path]
             sh['requests'].append((sh['net'].conns.index(conn), head + b'\r\n\r\n' + rest[:n]))
             if k < len(sh['script']):
                 segs, eof = sh['script'][k]
@@ -585,7 +590,64 @@ class ReactiveServer:
                 sh['feeders'].append(t)
 
 
-def real_session_sequence(exchanges, recorder_params=None, keep_alive=True, ignore_length=False):
+class FaultyFile:
+    """A recorder temp file whose write() fails once, like a full disk (ENOSPC)."""
+
+    def __init__(self, f, fault, cur):
+        self.__dict__['_f'] = f
+        self.__dict__['_fault'] = fault
+        self.__dict__['_cur'] = cur
+
+    def write(self, data):
+        fault = self._fault
+        fault['n'] = fault.get('n', 0) + 1
+        if fault['n'] == fault['k'] and fault.get('fired_exchange') is None:
+            fault['fired_exchange'] = self._cur.get('k')
+            import errno
+            raise OSError(errno.ENOSPC, 'No space left on device (injected)')
+        return self._f.write(data)
+
+    def __getattr__(self, name):
+        return getattr(self._f, name)
+
+    def __iter__(self):
+        return iter(self._f)
+
+
+def install_recorder_fault(recorder, fault, cur):
+    """fault = {'point': 'response_data' | 'request_data' | 'end_request' | 'end_response', 'k': n}:
+    the n-th write into the response / request block file, or the n-th write_record of a request /
+    response record, raises OSError once.  Only harness-side wrapping of objects the recorder
+    hands out; `fault['fired_exchange']` tells in which exchange it happened."""
+    import errno
+    point = fault['point']
+    if point in ('response_data', 'request_data'):
+        orig_new = recorder.new_http_recorder_session
+
+        def new_session():
+            rs = orig_new()
+            if point == 'response_data':
+                rs._response_temp_file = FaultyFile(rs._response_temp_file, fault, cur)
+            else:
+                orig_tmp = rs._new_temp_file
+                rs._new_temp_file = lambda hint='warcrecsess': FaultyFile(orig_tmp(hint=hint), fault, cur)
+            return rs
+        recorder.new_http_recorder_session = new_session
+    else:
+        want = 'request' if point == 'end_request' else ('response', 'revisit')
+        orig_write = recorder.write_record
+
+        def write_record(record):
+            if record.fields.get('WARC-Type') in want:
+                fault['n'] = fault.get('n', 0) + 1
+                if fault['n'] == fault['k'] and fault.get('fired_exchange') is None:
+                    fault['fired_exchange'] = cur.get('k')
+                    raise OSError(errno.ENOSPC, 'No space left on device (injected)')
+            return orig_write(record)
+        recorder.write_record = write_record
+
+
+def real_session_sequence(exchanges, recorder_params=None, keep_alive=True, ignore_length=False, fault=None):
     """exchanges: list of dicts {segs, eof, method, version, path}.  Runs the REAL
     Client/Session (and, when `recorder_params` is given, the REAL WARCRecorder
     listening to it) against a reactive in-memory server, strictly lock-step.
@@ -600,6 +662,9 @@ def real_session_sequence(exchanges, recorder_params=None, keep_alive=True, igno
     async def go():
         net = fakenet.FakeNet()
         shared = {'net': net, 'script': [(e['segs'], e['eof']) for e in exchanges], 'requests': [], 'feeders': []}
+        paths = [e.get('path', '/p%d' % k) for k, e in enumerate(exchanges)]
+        if len(set(paths)) == len(paths):
+            shared['paths'] = {p: k for k, p in enumerate(paths)}
         net.listen('10.0.0.1', 80, lambda: ReactiveServer(shared))
         calls = []
         o_read, o_readline = wc.Connection.read, wc.BaseConnection.readline
@@ -644,7 +709,10 @@ def real_session_sequence(exchanges, recorder_params=None, keep_alive=True, igno
                     from wpull.warc.recorder import WARCRecorder
                     recorder = WARCRecorder(recorder_params['filename'], params=recorder_params['params'])
                     recorder.listen_to_http_client(client)
+                    if fault is not None:
+                        install_recorder_fault(recorder, fault, cur)
                 for k, e in enumerate(exchanges):
+                    cur['k'] = k
                     request = Request('http://h' + e.get('path', '/p%d' % k), method=e.get('method', 'GET'),
                                       version=e.get('version', 'HTTP/1.1'))
                     for n, v in e.get('req_fields', ()):
